@@ -302,7 +302,7 @@ def describe():
               "dropped -> load -> generator states of the primary handed over) at generated points: before any step, around the "
               "first width adaptation / direction update (check intervals randomised 2..100), after many steps, twice in a row; "
               "all five sampler classes, bounds, Gibbs limits, temperatures, scalar/vector/matrix mass, finite-difference HMC, "
-              "tail-draw faults. Non-trivial = at least one restart followed by at least one step; distinct = scenario digest."),
+              "tail-draw faults, 5-9 parameters in 1/12 and one run of 300-5000 steps in 1/16 of the advance ops. Non-trivial = at least one restart followed by at least one step; distinct = scenario digest."),
         real_vs_stub=dict(real=["save()/load() of every sampler class on real .npz files", "take_step/advance after reload",
                                 "read-out and plotting calls (Agg backend)"],
                           stub=["entropy behind default_rng (state copied from the primary at the restart instant)", "time.time"]),
